@@ -1,5 +1,6 @@
 // C20 — String form of an index round-trips exactly (DESIGN.md §4 C20)
 #include "harness.hpp"
+#include <cerrno>
 extern "C" {
 #include "h3api.h"
 }
@@ -10,19 +11,22 @@ struct Case {
     uint64_t v = 0;     // kind 0
     int sz = 17;        // kind 0
     std::string text;   // kind 1,2 (hex-escaped in the case file)
+    int err = 0;        // ambient errno when the call is made: callers may arrive with any value left by earlier, unrelated calls
 };
 static std::string hexs(const std::string &t) {
     std::string o;
     for (unsigned char c : t) o += fmt("%02x", c);
     return o;
 }
-static std::string ser(const Case &c) { return fmt("kind=%d v=%016llx sz=%d text=%s", c.kind, (unsigned long long)c.v, c.sz, hexs(c.text).c_str()); }
+static std::string ser(const Case &c) { return fmt("kind=%d v=%016llx sz=%d text=%s errno=%d", c.kind, (unsigned long long)c.v, c.sz, hexs(c.text).c_str(), c.err); }
 static bool deser(const std::string &s, Case &c) {
     unsigned long long v;
     char buf[4096] = {0};
     int n = sscanf(s.c_str(), "kind=%d v=%llx sz=%d text=%4000s", &c.kind, &v, &c.sz, buf);
     if (n < 3) return false;
     c.v = v;
+    c.err = 0;
+    { size_t pe = s.find(" errno="); if (pe != std::string::npos) c.err = atoi(s.c_str() + pe + 7); }
     c.text.clear();
     for (size_t i = 0; buf[i] && buf[i + 1]; i += 2) {
         unsigned x;
@@ -51,6 +55,8 @@ static int hexval(char c) {
 }
 
 static void check(const Case &c) {
+    errno = c.err;
+    if (c.err) COUNT("ambient_errno_nonzero");
     if (c.kind == 0) {
         COUNT("format");
         int sz = c.sz;
@@ -150,6 +156,8 @@ static uint64_t drawValue() {
 static Case draw() {
     Case c;
     c.kind = rpick({6, 2, 2});
+    static const int ERRS[] = {0, ERANGE, EINVAL, EDOM, ENOMEM, EILSEQ, EOVERFLOW, 1, 9999};
+    c.err = rpick({2, 1}) == 0 ? 0 : ERRS[ri(0, 8)];
     if (c.kind == 0) {
         c.v = drawValue();
         c.sz = rpick({3, 2}) == 0 ? ri(17, 32) : ri(0, 16);
@@ -177,6 +185,13 @@ static void enumerate(const std::string &tier, int shard, int nshards, const std
     // every leading-zero length with all-ones tail; every 1..16-digit repetition of each hex digit
     long idx = 0;
     auto E = [&](const Case &c) { if ((idx++ % nshards) == shard) emit(c); };
+    {   // the round trip of extreme values under every ambient errno (a parser that consults errno must clear it first)
+        static const int ERRS[] = {0, ERANGE, EINVAL, EDOM, ENOMEM, EILSEQ, EOVERFLOW};
+        static const uint64_t XV[] = {0ULL, 1ULL, ~0ULL, ~0ULL - 1, 0x7fffffffffffffffULL, 0x8000000000000000ULL, 0xffffffffULL, 0x100000000ULL, 0x08001fffffffffffULL};
+        Case x;
+        for (int e : ERRS)
+            for (uint64_t v : XV) { x.kind = 0; x.v = v; x.sz = 17; x.err = e; E(x); }
+    }
     Case c;
     c.kind = 0;
     for (int sz = 0; sz <= 32; sz++) {
